@@ -98,3 +98,23 @@ def safeFrom : List String → List Stmt → Bool
 def safe (prog : List Stmt) : Bool := safeFrom [] prog
 
 end Yadism.Heap
+
+namespace Yadism.Heap
+
+/-- the names known to refer to objects of the program's own making after `prog` (what `safeFrom`
+carries along) -/
+def freshAfter : List String → List Stmt → List String
+  | fresh, [] => fresh
+  | fresh, .copy dst _ :: rest => freshAfter (dst :: fresh) rest
+  | fresh, .write _ :: rest => freshAfter fresh rest
+  | fresh, .writeNested _ :: rest => freshAfter fresh rest
+  | fresh, .alias dst :: rest => freshAfter (fresh.filter (· != dst)) rest
+
+/-- an object's life: its constructor, then any number of calls of its methods in any order.  The
+check: the constructor is safe; every method is safe when started with the names the constructor
+left fresh (`self.cache`, `self.esfs`, …), and leaves all of them fresh -/
+def lifecycleSafe (init : List Stmt) (methods : List (List Stmt)) : Bool :=
+  safe init && methods.all fun m =>
+    safeFrom (freshAfter [] init) m && (freshAfter [] init).all fun v => (freshAfter (freshAfter [] init) m).contains v
+
+end Yadism.Heap
